@@ -934,6 +934,11 @@ func (tc *typechecker) binaryOp(expr1 ast.Expression, op ast.OperatorType, expr2
 			if t1.Type != t2.Type && !(t1.Untyped() && t1.IsNumeric() && t2.IsNumeric()) {
 				return nil, fmt.Errorf("mismatched types %s and %s", t1.ShortString(), t2.ShortString())
 			}
+			// The representation of a typed constant does not depend on its
+			// type, so check that the operator is defined on the type.
+			if !t1.Untyped() && !operatorsOfKind[t1.Type.Kind()][op] {
+				return nil, fmt.Errorf("operator %s not defined on %s", op, t1.ShortString())
+			}
 		}
 
 		c, err := t1.Constant.binaryOp(op, t2.Constant)
